@@ -29,7 +29,7 @@ Readback == <<[op |-> "ItemGet", ring |-> 0, index |-> 0], [op |-> "ItemGet", ri
               [op |-> "ItemGet", ring |-> 0, index |-> 7],
               [op |-> "ItemGet", ring |-> 0, index |-> 0, hi |-> 1], [op |-> "ItemGet", ring |-> 0, index |-> 1, hi |-> 5],
               [op |-> "Count", ring |-> 0], [op |-> "Find", ring |-> 0, kid |-> "k1"],
-              [op |-> "Find", ring |-> 0, kid |-> "k2"], [op |-> "Find", ring |-> 0, kid |-> "k"],
+              [op |-> "Find", ring |-> 0, kid |-> "k2"], [op |-> "Find", ring |-> 0, kid |-> "k"], [op |-> "Find", ring |-> 0, kid |-> "kbad"],
               [op |-> "ErrAny", ring |-> 0]>>
 
 Rec(op) == hist' = hist \o <<op>> \o Readback
